@@ -18,10 +18,17 @@ def norm(s):
     return re.sub(r"\s+", "", s)
 
 
+sys.path.insert(0, os.path.dirname(os.path.abspath(__file__)))
+from rustconst import const_in
+
+SOURCES = []
+
+
 def safe_eval(expr):
-    if not re.fullmatch(r"[0-9xXa-fA-F\s()+\-*/<]+", expr):
+    v = const_in(expr, *SOURCES)
+    if v is None:
         raise ValueError("unexpected constant expression: %r" % expr)
-    return int(eval(expr.replace("/", "//"), {"__builtins__": {}}, {}))
+    return v
 
 
 def fn_body(src, header_rx):
@@ -60,6 +67,7 @@ def extract(repo):
     md = open(os.path.join(repo, "src/metadata/mod.rs")).read()
     enc = open(os.path.join(repo, "src/encode.rs")).read()
     out, anchors = {}, {}
+    SOURCES[:] = [md, enc]
     m = re.search(r"impl BlockSize \{.*?const MAX: u32 = ([^;]+);", md, re.S)
     if not m:
         raise ValueError("BlockSize::MAX not found")
@@ -77,7 +85,7 @@ def extract(repo):
     m = re.search(r"pub enum BlockType \{(.*?)\n\}", md, re.S)
     if not m:
         raise ValueError("enum BlockType not found")
-    codes = dict((k, int(v)) for k, v in re.findall(r"(\w+) = (\d+),", m.group(1)))
+    codes = dict((k, safe_eval(v)) for k, v in re.findall(r"(\w+) = ([^,\n]+),", m.group(1)))
     for k in ("Streaminfo", "Padding", "Application", "SeekTable", "VorbisComment", "Cuesheet", "Picture"):
         if k not in codes:
             raise ValueError("BlockType::%s not found" % k)
